@@ -82,6 +82,9 @@ func genSupCase(r *simkit.Rand, tier string, intensityStudy bool) *SupCase {
 			}
 			if c.Type == "sofo" && r.Chance(0.3) {
 				ev.Kind = "sofostart" // keep instances coming: the ones that end normally are not replaced
+			} else if r.Chance(0.12) {
+				// children stopped by DisableChild are not restarts either
+				ev.Kind = simkit.Pick(r, "disable", "enable")
 			}
 			// bursts, bursts separated by about a period, slow drips
 			per := c.Period * 1000
